@@ -4,7 +4,7 @@
 From Coq Require Import List NArith Bool Arith Sorted.
 From Coq Require Import Strings.Byte.
 Require Import BS.Bytes BS.Common BS.Api BS.Layout BS.Format BS.FormatFacts BS.Spec BS.SpecStep.
-Require Import BS.FS BS.FSFacts BS.Meta BS.MetaFacts BS.Header BS.Reader BS.ReaderFacts BS.Index BS.Data BS.DataFacts BS.Seek BS.Series BS.SeriesFacts BS.ReadAllFacts BS.TotalFacts BS.ExtractFacts BS.OpenFacts BS.TornFacts.
+Require Import BS.FS BS.FSFacts BS.Meta BS.MetaFacts BS.Header BS.Reader BS.ReaderFacts BS.Index BS.Data BS.DataFacts BS.Seek BS.Series BS.SeriesFacts BS.ReadAllFacts BS.TotalFacts BS.ExtractFacts BS.OpenFacts BS.TornFacts BS.TornGenFacts BS.Sections.
 Import ListNotations.
 
 
@@ -35,6 +35,24 @@ Theorem C05_open_after_crash : forall p, 4 <= p -> forall fs name uhdr popt hdro
     /\ (forall g, g <> name ++ ext_data -> g <> name ++ ext_index -> g <> name ++ ext_part -> fs_get fs' g = fs_get fs g).
 Proof. exact torn_open. Qed.
 Print Assumptions C05_open_after_crash.
+
+(* the same for EVERY payload size, under the one condition that no continuation slot of a full-timestamp section looks like
+   a marker line (nm_sec: vacuous for payload sizes >= 4 - there are no such slots; for 0..3 its failure is the class of the
+   known finding D6) *)
+Theorem C05_open_after_crash_any_payload : forall p fs name uhdr popt hdropt cb l c,
+  let header := params_to_text BSgen.Consts.version (N.of_nat p) ++ uhdr in
+  wf_series p l -> Forall (nm_sec p) (secs_of l) -> c <= length (encode p l) ->
+  (len header <= 65535)%N -> (len (encode p l) < 2^64)%N -> (N.of_nat p < 2^64)%N ->
+  fs_get fs (name ++ ext_data) = Some (outer header ++ firstn c (encode p l)) ->
+  index_state fs name (sections p (encode p l)) ->
+  (popt = None \/ popt = Some (N.of_nat p)) ->
+  match hdropt with HdrIs e => e = uhdr | HdrAny => True end ->
+  exists fs' s k, builder_open name popt hdropt [] cb fs = (fs', Ok (s, uhdr))
+    /\ k <= length l /\ length (encode p (firstn k l)) <= c /\ (k < length l -> c < length (encode p (firstn (S k) l)))
+    /\ RepH fs' s p (outer header) (outer []) (firstn k l) /\ s_cb s = cb
+    /\ (forall g, g <> name ++ ext_data -> g <> name ++ ext_index -> g <> name ++ ext_part -> fs_get fs' g = fs_get fs g).
+Proof. exact torn_open_gen. Qed.
+Print Assumptions C05_open_after_crash_any_payload.
 
 (* the repaired series accepts further appends and round-trips them *)
 Theorem C05_repair_then_append : forall p, 4 <= p -> forall fs name uhdr popt hdropt cb l c ts pay,
@@ -95,5 +113,4 @@ Theorem C05_index_rebuild : forall p fs data hdr name l, wf_series p l ->
     /\ (forall g, g <> name ++ ext_part -> g <> name ++ ext_index -> fs_get fs' g = fs_get fs g).
 Proof. exact create_from_byteseries_ok. Qed.
 Print Assumptions C05_index_rebuild.
-(* partial: payload sizes 0..3 (section headers of 3, 4 and 6 lines; there the known finding D6 applies) are judged, not
-   proved; repeated crash-repair-append cycles follow by iterating these theorems with RepH as the invariant (C03). *)
+(* partial: payload sizes 0..3 with 0xFFFF words in a continuation slot (known finding D6) are outside the theorems; repeated crash-repair-append cycles follow by iterating these theorems with RepH as the invariant (C03). *)
